@@ -13,5 +13,7 @@ git -C /repo apply "$PATCH"
 VERIF_LOCK_HELD=1 ./check "$PROP" "$@"
 rc=$?
 git -C /repo apply -R "$PATCH" || echo "WARNING: could not revert $PATCH"
+# the generated Lean files were regenerated from the mutated source: regenerate them from the restored tree
+python3 tools/translate.py > /dev/null 2>&1
 # rebuild nothing here: the next check rebuilds from the restored tree
 exit $rc
